@@ -42,6 +42,10 @@ NewIkeSaStep(prop, name, su, g, peer, nonce, spii, spir, rnd) ==
   Step("new_ike_sa", prop, FALSE,
        [name |-> name, suite |-> su, prop |-> IkeProp(su, g), wire |-> TRUE, peer |-> peer, nonce |-> nonce, spii |-> spii, spir |-> spir, rand |-> rnd],
        [panic |-> FALSE, err |-> FALSE, haskey |-> TRUE, haspub |-> TRUE, ndelivered |-> [oneof |-> << 256, 512, 768, 1024 >>]] @@ IkeKeyRec(su))
+NewIkeSaStepP(px, prop, name, su, g, peer, nonce, spii, spir, rnd) ==
+  Step("new_ike_sa", prop, FALSE,
+       [name |-> name, suite |-> su, prop |-> IkeProp(su, g), wire |-> TRUE, peer |-> peer, nonce |-> nonce, spii |-> spii, spir |-> spir, rand |-> rnd],
+       [panic |-> FALSE, err |-> FALSE, haskey |-> TRUE, haspub |-> TRUE, ndelivered |-> [oneof |-> << 256, 512, 768, 1024 >>]] @@ IkeKeyRecP(px, su))
 SaProbeStep(prop, name, su) ==
   LET k == IkeKeyRec(su) x == IkeKeyExpect(su) IN
   Step("sa_probe", prop, FALSE, [sa |-> name] @@ ProbeArgs(su),
